@@ -19,7 +19,7 @@ ASSUMPTIONS = ["all strings are valid UTF-8 (the API takes &str); bytes are comp
                "(Spec.pairs_of, injective on builder-made rules: C22_pairs_of_injective)"]
 
 VALS = ["", "x", "xy", "a'b", "'", "''", "a,b", ",", "a\\b", "\\", "\\'", "a=b", "=", "é", "a b", "/a", "org.zbus", "x'y,z", "'x'", "a\\'b",
-        "arg0='x'", "tab\there"]
+        "arg0='x'", "tab\there", "x',arg1='y", "x',arg0='y", "',type='error"]
 
 
 def gen_rule22(rng):
